@@ -3,10 +3,14 @@
 # runs all checks on a scratch copy with that patch and prints which properties alarm (development aid)
 bin=$1; shift
 mkdir -p /tmp/tryout
+export DHCPVERIF_BIN=$bin
+# snapshot of the analyser and its reviewed tables: edits made while the corpus runs do not leak into it
+export SNAP=$(mktemp -d /tmp/snap.XXXXXX); mkdir -p $SNAP/bin $SNAP/spec; cp ${DHCPVERIF_BIN:-bin/dhcpverif} $SNAP/bin/dhcpverif; cp spec/*.json $SNAP/spec/; cp known_findings.json $SNAP/; unset DHCPVERIF_BIN
+trap 'rm -rf $SNAP' EXIT
 for n in "$@"; do
   if [ -f seeded/$n/patch.diff ]; then p=seeded/$n/patch.diff; elif [ -f refactors/$n/patch.diff ]; then p=refactors/$n/patch.diff; else p=mutants/$n.patch; fi
   echo "$n $p"
-done | xargs -P 8 -L 1 sh -c 'DHCPVERIF_BIN='$bin' tools/runpatch.sh $0 $1 /tmp/tryout'
+done | xargs -P 8 -L 1 sh -c 'tools/runpatch.sh $0 $1 /tmp/tryout'
 for n in "$@"; do
   props=$(grep "^VIOLATION" /tmp/tryout/$n.txt | sed 's/.*property=\(C[0-9]*\).*/\1/' | sort -u | tr '\n' ' ')
   echo "$n: ${props:-clean}"
